@@ -77,6 +77,16 @@ class Exe:
         """C type of obj's element after following path (array levels kept)."""
         ct = obj.ct
         for f in path:
+            if f == '$tag':
+                # ghost label attached to every scalar element (travels with direct copies): same shape as the element
+                dims = []
+                while isinstance(ct, TArr):
+                    dims.append(ct.n)
+                    ct = ct.of
+                t = T_INT
+                for n in reversed(dims):
+                    t = TArr(t, n)
+                return t
             while isinstance(ct, TArr):
                 ct = ct.of
             if not isinstance(ct, TStruct):
@@ -94,6 +104,8 @@ class Exe:
         dims = [obj.n]
         ct = obj.ct
         for f in path:
+            if f == '$tag':
+                break
             while isinstance(ct, TArr):
                 dims.append(ct.n)
                 ct = ct.of
@@ -425,8 +437,14 @@ class Exe:
         if self._impure(n):
             raise FrontEndError('side effect inside short-circuit / conditional operand (%s)' % self.fn_stack[-1])
         s2 = st.fork()
+        n0 = len(s2.pc)
         s2.assume(guard)
+        n1 = len(s2.pc)
         r = self.cond(n, s2) if as_cond else self.ev(n, s2)
+        # facts learned while evaluating the guarded operand (callee postconditions, type ranges) hold under the guard
+        g = z3.And(*s2.pc[n0:n1]) if n1 > n0 else z3.BoolVal(True)
+        for f in s2.pc[n1:]:
+            st.assume(z3.Implies(g, f))
         # lazily initialised cells are shared through the registry; nothing else may have changed
         return r
 
@@ -626,6 +644,11 @@ class Exe:
         o = p.obj
         if o is None or o is RAW:
             return
+        if o.n is not None and p.idx and not isinstance(p.idx[0], int):
+            i0 = simp(p.idx[0])
+            if not (z3.is_int_value(i0) or z3.is_bv_value(i0)):
+                self.emit('%s/bounds(%s)@%s' % (self.fn_stack[-1], o.name, self._loc(n)),
+                          z3.And(i0 >= 0, i0 < self.sem.idx_const(o.n)), st, kind='bounds')
         if o.length is not None and p.idx:
             i = self._ix(p.idx[0])
             ln = o.length
@@ -761,6 +784,35 @@ class Exe:
             return   # char buffers initialised from literals: contents not tracked
         v = self.ev(init, st)
         self.store(p, v, st)
+        self.transfer_tag(p, init, st)
+
+    # -- ghost element labels ("tagged elements") -------------------------------------------------------
+    ghost_tags = False
+
+    def tag_loc(self, p):
+        q = self._normalize(p)
+        return q.with_(path=q.path + ('$tag',), ct=T_INT)
+
+    def transfer_tag(self, dst, rhs_node, st):
+        """dst = <rhs>: if <rhs> is a direct read of an element its label travels with the value, otherwise the label is unknown."""
+        if not self.ghost_tags or dst.obj is None or dst.obj is RAW or isinstance(dst.ct, (TStruct, TArr, TPtr)):
+            return
+        n = rhs_node
+        while n.get('kind') in ('ParenExpr',) or (n.get('kind') == 'ImplicitCastExpr' and n.get('castKind') in ('NoOp',)):
+            n = n['inner'][0]
+        tag = None
+        if n.get('kind') == 'ImplicitCastExpr' and n.get('castKind') == 'LValueToRValue':
+            e = n['inner'][0]
+            if not self._impure(e):
+                src = self.lval(e, st)
+                if src.obj is not None and src.obj is not RAW and not isinstance(src.ct, (TStruct, TArr, TPtr)):
+                    tag = st.load(self.tag_loc(src))
+        if tag is None:
+            self.nsym += 1
+            tag = z3.Const('tag?#%d' % self.nsym, self.sem.sort_of(T_INT))
+        tl = self.tag_loc(dst)
+        self.on_store(tl, tag, st)
+        st.store(tl, tag)
 
     def _decl_type(self, obj):
         d = obj.meta.get('decl')
@@ -1016,6 +1068,7 @@ class Exe:
             p = self.lval(a_n, st)
             self.site = self._loc(n)
             self.store(p, rhs, st, n)
+            self.transfer_tag(p, b_n, st)
             return rhs
         if op == ',':
             self._ev(a_n, st)
